@@ -145,6 +145,7 @@ def run(prop, tier_, sample=None, jobs=12, newino=20):
     pv_cases = [pv_cases[i] for i in order]
     index = [index[i] for i in order]
     results = run_pv(pv_cases, jobs=jobs, tag=prop)
+    results, still_noisy = rerun_noisy(pv_cases, results, tag=prop + "r")
     per = collections.defaultdict(dict)
     for (ci, who), r in zip(index, results):
         if r.get("error") or not r.get("out") or "results" not in r["out"][0]:
